@@ -552,6 +552,8 @@ class Env:
         nest_at = 1 + ((self.wall_seed_bits >> 11) % 3)          # first, second or third invocation
         if not self.reentrant or self.depth or self.op_count != nest_at or self.built is None:
             return 0
+        if self.__dict__.get("real_loop"):        # asyncio.run() cannot be nested inside a running loop
+            return 0
         t0 = self.clock.ticks
         saved = (self.exchanges, self.answers, self.op_count, self.step, self.call_start, self.oracle,
                  self.deliver_throw)
@@ -872,8 +874,11 @@ def build(env: Env, cfg: LoopCfg) -> Built:
     # hand).  The timeout is an hour of REAL time and never fires: the point is that `_call_with_timeout`
     # (worker thread + future) must be transparent for values and for every exception kind.
     extra_kwargs: dict[str, Any] = {}
-    if cfg.has("attempt_timeout") and not cfg.has("async") and not cfg.has("no_retry"):
+    if cfg.has("attempt_timeout") and not cfg.has("no_retry") and (not cfg.has("async") or not env.deliver_throw):
+        # (async: `asyncio.wait_for` needs a running loop, so those calls are run by `asyncio.run` instead of
+        # being driven by hand — possible because nothing suspends when cancellation kinds are simply raised)
         extra_kwargs["attempt_timeout_s"] = 3600.0
+        env.real_loop = cfg.has("async")
     retry_kwargs: dict[str, Any] = dict(
         **extra_kwargs,
         classifier=env.classifier,
@@ -1110,7 +1115,7 @@ def run_step(env: Env, built: Built, cfg: LoopCfg, which: str) -> StepResult:
                 notes["own_timeline_start"] = len(own.events) if own is not None else 0
             r = built.target.execute(func, **kwargs)
         if is_async:
-            r = drive(r, env)
+            r = asyncio.run(r) if env.__dict__.get("real_loop") else drive(r, env)
     except BaseException as e:  # noqa: BLE001 - we are the top of the stack on purpose
         if isinstance(e, (StopDriver, AssertionError)):
             raise
